@@ -22,6 +22,8 @@ type c02End struct {
 	eof         bool // closes after its data (Read returns EOF) instead of waiting
 	eofWithData bool // ... and the EOF comes together with the last chunk
 	failAt      int  // Write accepts this many bytes in total, then fails (-1: never)
+	stallAt     int  // Write accepts this many bytes in total, then blocks until the connection is closed
+	stalls      bool
 	got         []byte
 	closed      chan struct{}
 	isClosed    bool
@@ -72,6 +74,15 @@ var errC02Reset = errors.New("connection reset by peer")
 
 func (c *c02End) Write(p []byte) (int, error) {
 	c.mu.Lock()
+	if c.stalls && !c.isClosed && len(c.got)+len(p) > c.stallAt {
+		// a peer that stopped reading: the bytes that still fit are taken, then the write hangs
+		// until somebody closes the connection
+		n := c.stallAt - len(c.got)
+		c.got = append(c.got, p[:n]...)
+		c.mu.Unlock()
+		<-c.closed
+		return n, net.ErrClosed
+	}
 	defer c.mu.Unlock()
 	if c.isClosed {
 		return 0, net.ErrClosed
@@ -220,4 +231,53 @@ func Harness_C02_pipe() {
 	gotS, _ = src.snapshot()
 	verif_Assert("C02.counters", b.GetBytesSent() == int64(len(gotT)) && b.GetBytesReceived() == int64(len(gotS)))
 	verif_Cover("C02.done")
+}
+
+// The source client stops reading (its socket buffers are full) while the target still has
+// data for it; then the bridge is closed - from outside, or by the source->target direction
+// failing because the target went away. The shutdown must go through: the stalled write is
+// released by closing the source connection. A hang is reported under the label "deadlock"
+// (natively: the watchdog).
+func Harness_C02_stalled_peer() {
+	verif_ClockSet(int64(1) << 60)
+	ctx, stop := context.WithCancel(context.Background())
+	defer stop()
+	nT := verif_IntRange(1, verif_Bound("payload"))
+	dT, cT := c02Script(nT)
+	external := verif_Bool()
+	var src, dst *c02End
+	if external {
+		// the target keeps the tunnel open; somebody closes the bridge (shutdown, idle timeout)
+		src = newC02End(nil, nil, false, -1)
+		dst = newC02End(dT, cT, false, -1)
+	} else {
+		// the target sent its data and went away: the next byte from the source cannot be
+		// written to it, which ends the source->target direction and closes the bridge
+		src = newC02End(verif_Bytes(1), []int{1}, false, -1)
+		dst = newC02End(dT, cT, false, 0)
+	}
+	src.stalls, src.stallAt = true, verif_IntRange(0, nT-1)
+	b := NewBridge(ctx, &BridgeConfig{TunnelID: "tun-1", MappingID: "pm1", SourceConn: src})
+	b.SetTargetConnection(c02TunnelConn{dst})
+	done := make(chan struct{})
+	verif_GoGate(func() {
+		b.Start()
+		close(done)
+	})
+	verif_Quiesce()
+	if external {
+		verif_GoGate(func() { b.Close() })
+		verif_Quiesce()
+	}
+	finished := false
+	select {
+	case <-done:
+		finished = true
+	default:
+	}
+	gotS, closedS := src.snapshot()
+	_, closedT := dst.snapshot()
+	verif_Assert("deadlock", finished && closedS && closedT)
+	verif_Assert("C02.stall.prefix", c02Prefix(gotS, dT))
+	verif_Cover("C02.stall.done")
 }
